@@ -399,7 +399,7 @@ def work_cxx(job: Tuple[Any, bool]) -> Dict[str, Any]:
                     depth -= 1
                     if depth == 0 and closed_at is None:
                         closed_at = i
-            rest = [l for l in hl[(closed_at if closed_at is not None else len(hl)) + 1:] if l.strip()]
+            rest = [l for l in hl[(closed_at if closed_at is not None else len(hl)) + 1:] if l.strip() and not l.strip().startswith(("//", "/*", "*"))]  # comments may follow
             res["obligations"] += 1
             if closed_at is None or rest:
                 res["violations"].append({"what": f"{res['case']}: the include guard of {b.main}_bp.h is closed before the end of the file; after it come {rest[:3]}", "payload": {"kind": "schema", "files": case.proto.files(), "main": case.proto.fname(), "lang": "c"},
